@@ -59,6 +59,26 @@ def _apply_perturb(data, p):
         pl[off % len(pl)] = byte & 0xFF
         chunks[i] = (cid, bytes(pl))
         return chunkio.join(chunks)
+    if kind == "sampler_legacy":  # ["sampler_legacy", n, variant]: make the n-th Sampler instrument record an old-format one
+        _, n, variant = p
+        chunks = [(nm, pl) for _, nm, pl in chunkio.split(data)]
+        SIGN = 0xFC  # offset of the "SAMP" signature in the instrument record
+        idxs = [i for i, (nm, pl) in enumerate(chunks) if nm == b"CHDT" and len(pl) >= SIGN + 8 and pl[SIGN : SIGN + 4] == b"PMAS"]
+        if not idxs:
+            return data
+        i = idxs[n % len(idxs)]
+        pl = bytearray(chunks[i][1])
+        v = variant % 4
+        if v == 0:
+            pl[SIGN : SIGN + 4] = b"\0\0\0\0"  # written before the signature existed
+        elif v == 1:
+            pl = pl[:0x184]  # record ends after the 128-entry note map (no max_version / editor fields)
+        elif v == 2:
+            pl = pl[:0x188]
+        else:
+            pl[SIGN : SIGN + 4] = b"SAMP"  # wrong byte order
+        chunks[i] = (b"CHDT", bytes(pl))
+        return chunkio.join(chunks)
     if kind == "in":  # ["in", n, inner]: apply `inner` inside the n-th embedded container (project / effect synth)
         _, n, inner = p
         chunks = [(nm, pl) for _, nm, pl in chunkio.split(data)]
